@@ -114,8 +114,30 @@ func main() {
 		if err := os.WriteFile(dst, buf.Bytes(), 0o644); err != nil {
 			die("%v", err)
 		}
-		overlay[filepath.Join(*repo, names[i])] = dst
+		overlay[filepath.Join("/repo", names[i])] = dst
 		rep.Files = append(rep.Files, names[i])
+	}
+
+	// a tree other than /repo (scratch copy with a patch applied): its
+	// sub-packages replace /repo's through the overlay as well
+	if filepath.Clean(*repo) != "/repo" {
+		filepath.Walk(*repo, func(path string, fi os.FileInfo, err error) error {
+			if err != nil {
+				return nil
+			}
+			rel, _ := filepath.Rel(*repo, path)
+			if fi.IsDir() {
+				if rel == ".git" || rel == "examples" || rel == "zsimrt" {
+					return filepath.SkipDir
+				}
+				return nil
+			}
+			if !strings.HasSuffix(rel, ".go") || strings.HasSuffix(rel, "_test.go") || !strings.Contains(rel, "/") {
+				return nil
+			}
+			overlay[filepath.Join("/repo", rel)] = path
+			return nil
+		})
 	}
 
 	// add zsimrt package
@@ -125,7 +147,7 @@ func main() {
 	}
 	for _, e := range zents {
 		if strings.HasSuffix(e.Name(), ".go") {
-			overlay[filepath.Join(*repo, "zsimrt", e.Name())] = filepath.Join(*zs, e.Name())
+			overlay[filepath.Join("/repo", "zsimrt", e.Name())] = filepath.Join(*zs, e.Name())
 		}
 	}
 
